@@ -11,6 +11,7 @@ import (
 	"path/filepath"
 	"runtime/debug"
 	"strings"
+	"sync/atomic"
 	"time"
 
 	"github.com/scottyw/tetromino/gameboy"
@@ -199,6 +200,8 @@ func (s serialRec) Write(p []byte) (int, error) {
 
 var scratchDir string
 
+var romSeq atomic.Int64
+
 // ScratchDir returns the per-process scratch directory for ROM files (simulated disk).
 func ScratchDir() string {
 	if scratchDir == "" {
@@ -294,7 +297,7 @@ func ClassifyStack(st string) (bool, string) {
 // A panic during construction is returned as PanicInfo (construction may legitimately fail).
 func New(img []byte, missing bool, opt Options) (*Machine, *PanicInfo) {
 	m := &Machine{}
-	path := filepath.Join(ScratchDir(), fmt.Sprintf("rom-%d.gb", os.Getpid()))
+	path := filepath.Join(ScratchDir(), fmt.Sprintf("rom-%d-%d.gb", os.Getpid(), romSeq.Add(1)))
 	if missing {
 		os.Remove(path)
 	} else {
@@ -321,8 +324,15 @@ func New(img []byte, missing bool, opt Options) (*Machine, *PanicInfo) {
 		}
 		m.GB = gameboy.New(cfg)
 	})
-	display.NextHandler = nil
-	speakers.NextCapacity = 0
+	// the hand-off variables of the simulated devices are only touched by constructions that attach
+	// a device (those are serialised by the scheduler); instances without devices may be constructed
+	// concurrently (C25 class concurrent) and share nothing with the harness
+	if opt.Video {
+		display.NextHandler = nil
+	}
+	if opt.Audio {
+		speakers.NextCapacity = 0
+	}
 	if pi != nil {
 		return nil, pi
 	}
